@@ -129,7 +129,9 @@ func isolatedImpl(p *Prop, line string) string {
 }
 
 func safeImpl(p *Prop, line string) (out string) {
-	if p.Isolate && os.Getenv("VERIF_CHILD") == "" {
+	// VERIF_FORCE_ISOLATE: ./check re-runs a property whose harness process died with every case in a process
+	// of its own, to pin the case that brings it down
+	if (p.Isolate || os.Getenv("VERIF_FORCE_ISOLATE") != "") && os.Getenv("VERIF_CHILD") == "" {
 		return isolatedImpl(p, line)
 	}
 	timeout := p.Timeout
